@@ -15,22 +15,24 @@ import (
 func init() { register("C13", "exploration", checkC13) }
 
 type connVariant struct {
-	Name   string `json:"proto_name"`
-	Level  byte   `json:"level"`
-	Flags  byte   `json:"flags"`
-	Will   bool   `json:"will_fields"`
-	User   bool   `json:"user_field"`
-	Pass   bool   `json:"pass_field"`
-	Empty  bool   `json:"empty_id"`
-	ID     string `json:"id"`
+	Name  string `json:"proto_name"`
+	Level byte   `json:"level"`
+	Flags byte   `json:"flags"`
+	Will  bool   `json:"will_fields"`
+	User  bool   `json:"user_field"`
+	Pass  bool   `json:"pass_field"`
+	Empty bool   `json:"empty_id"`
+	ID    string `json:"id"`
 }
 
 // validity of a CONNECT per the rules the broker is required to enforce (MQTT 3.1.1 / 5 section 3.1)
 func (v connVariant) classify() (wellFormed bool, valid bool, why string) {
 	f := v.Flags
 	willFlag, userFlag, passFlag := f&4 != 0, f&0x80 != 0, f&0x40 != 0
-	// body must contain exactly the fields the flags announce, else the packet is malformed
-	if willFlag != v.Will || userFlag != v.User || passFlag != v.Pass {
+	// the body must contain exactly the fields the flags announce, else the packet is malformed. What counts is what
+	// is on the wire: a parser that follows the flags must consume the payload exactly (a variant that sets the user
+	// name flag and writes only the "password" string is a well-formed CONNECT whose user name is that string)
+	if _, _, ok := v.effective(); !ok {
 		return false, false, "fields-do-not-match-flags"
 	}
 	switch {
@@ -52,6 +54,68 @@ func (v connVariant) classify() (wellFormed bool, valid bool, why string) {
 		return true, false, "v3-empty-id-clean-0"
 	}
 	return true, true, ""
+}
+
+// effective parses the payload that bytes() writes after the client id the way the flags prescribe and returns the user
+// name and password a broker must see; ok is false when the payload does not fit the flags.
+func (v connVariant) effective() (user, pass *string, ok bool) {
+	var tail []byte
+	put := func(b string) { tail = append(tail, byte(len(b)>>8), byte(len(b))); tail = append(tail, b...) }
+	if v.Will {
+		if v.Level == 5 {
+			tail = append(tail, 0)
+		}
+		put("will/c13")
+		put("WILL")
+	}
+	if v.User {
+		put("alice")
+	}
+	if v.Pass {
+		put("secret")
+	}
+	str := func() (string, bool) {
+		if len(tail) < 2 {
+			return "", false
+		}
+		n := int(tail[0])<<8 | int(tail[1])
+		if len(tail) < 2+n {
+			return "", false
+		}
+		x := string(tail[2 : 2+n])
+		tail = tail[2+n:]
+		return x, true
+	}
+	f := v.Flags
+	if f&4 != 0 {
+		if v.Level == 5 {
+			// will properties: only the empty block written by bytes() is recognised here
+			if len(tail) < 1 || tail[0] != 0 {
+				return nil, nil, false
+			}
+			tail = tail[1:]
+		}
+		for i := 0; i < 2; i++ {
+			if _, ok := str(); !ok {
+				return nil, nil, false
+			}
+		}
+	}
+	if f&0x80 != 0 {
+		x, ok := str()
+		if !ok {
+			return nil, nil, false
+		}
+		user = &x
+	}
+	if f&0x40 != 0 {
+		x, ok := str()
+		if !ok {
+			return nil, nil, false
+		}
+		pass = &x
+	}
+	return user, pass, len(tail) == 0
 }
 
 func (v connVariant) bytes() []byte {
@@ -100,7 +164,8 @@ func c13HookConfigs() []c13Hooks {
 		{"ledger", func() eng.Options {
 			return eng.Options{NoAuthHook: true, ExtraHooks: []eng.HookSpec{{Hook: new(auth.Hook), Config: &auth.Options{Ledger: ledger()}}}}
 		}, func(v connVariant) bool {
-			return (v.User && v.Pass) || (!v.Empty && len(v.ID) > 6 && v.ID[:6] == "c13-ok")
+			u, p, _ := v.effective()
+			return (u != nil && p != nil && *u == "alice" && *p == "secret") || (!v.Empty && len(v.ID) > 6 && v.ID[:6] == "c13-ok")
 		}},
 		{"deny-then-allow", func() eng.Options {
 			return eng.Options{AuthDeny: func(string) bool { return true }, ExtraHooks: []eng.HookSpec{{Hook: new(auth.AllowHook)}}}
